@@ -136,6 +136,13 @@ def check(ctx: Ctx) -> str:
     ctx.check("self.get_source_checksum(source)" in gbs and "self.load_bytecode(bucket)" in gbs, "get_bucket:current-source", "bccache:BytecodeCache.get_bucket", "checksum of current source",
               "get_bucket must checksum the *current* source and then load", gb.loc())
 
+    bucket_key_inputs_rule(ctx, "R8")
+    # a template built from cached bytecode is built like one compiled from source: same
+    # arguments, in particular the loader's uptodate callable (rule owned by C25)
+    from . import c25
+
+    ctx.run_imported("C25", {"R3"}, c25.check)
+
     ctx.rule("R3", "FileSystemBytecodeCache.dump_bytecode: temp file in the target directory, os.replace onto the final name, remove_silent on every exceptional path")
     db = repo.func("bccache:FileSystemBytecodeCache.dump_bytecode")
     tf = [c for c in astq.calls(db.node) if astq.callee(c).endswith("NamedTemporaryFile")]
@@ -215,6 +222,32 @@ def check(ctx: Ctx) -> str:
     sb = [c for c in astq.calls(ld.node) if astq.callee(c) == "bcc.set_bucket"]
     ctx.check(len(sb) == 1 and any("bucket.code is None" in g and pol for g, pol in astq.guard_texts(ld.node, sb[0])), "load:store-when-empty", "loaders:BaseLoader.load", "store on miss", "the compiled code must be stored exactly when the bucket was empty", ld.loc())
     return __doc__ or ""
+
+
+def bucket_key_inputs_rule(ctx: Ctx, rid: str) -> None:
+    """The key handed to Bucket(...) in get_bucket depends on both the template name and the
+    file name (shared with C35: cached code carries the file name tracebacks report)."""
+    ctx.rule(rid, "get_bucket: the key of the bucket has a def-use path from both `name` and `filename` (code objects embed the file name: a key without it hands one template the code - and the traceback file name - of another)")
+    gb = ctx.repo.func("bccache:BytecodeCache.get_bucket")
+    mk = [c for c in astq.calls(gb.node) if astq.callee(c) == "Bucket"]
+    ctx.need(len(mk) == 1 and len(mk[0].args) >= 2, "get_bucket: the Bucket(...) construction was not found")
+    deps: dict[str, set[str]] = {}
+    for n in ast.walk(gb.node):
+        if isinstance(n, (ast.Assign, ast.AnnAssign)) and n.value is not None:
+            for t_ in (n.targets if isinstance(n, ast.Assign) else [n.target]):
+                if isinstance(t_, ast.Name):
+                    deps.setdefault(t_.id, set()).update(astq.names_in(n.value))
+    reach = set(astq.names_in(mk[0].args[1]))
+    todo = list(reach)
+    while todo:
+        for y in deps.get(todo.pop(), ()):
+            if y not in reach:
+                reach.add(y)
+                todo.append(y)
+    for src in ("name", "filename"):
+        ctx.check(src in reach, f"bucket-key:{src}", "bccache:BytecodeCache.get_bucket", f"bucket key does not depend on `{src}`" if src not in reach else f"key from {src}",
+                  f"the key passed to Bucket(...) is computed without `{src}`: a template loaded under the same name from another file (a second search path, an edited loader) is served the cached code object of the first, whose co_filename - and every traceback and debug line mapping - names the other file",
+                  gb.loc(mk[0]))
 
 
 def _depends_on(fn: ast.AST, src: str, targets: tuple[str, ...]) -> bool:
